@@ -95,9 +95,22 @@ func modelSummary(m map[string]string) string {
 	return sb.String()
 }
 
-// replayOnRealCode: to be extended per function shape.
+// replayOnRealCode dispatches on the kind of function the failed obligation belongs to.
 func replayOnRealCode(e *Engine, l *Loaded, ob *Oblig, scratch string) (bool, string, string, string) {
-	return false, "", "", "no replayer for this function shape yet"
+	if ob.run == nil || ob.run.fn == nil {
+		return false, "", "", "no run information for this obligation"
+	}
+	ct := l.bound[ob.run.fn]
+	if ct == nil {
+		return false, "", "", "no contract"
+	}
+	if ct.Kind == "circuit" {
+		if ob.Kind == "pre" {
+			return false, "", "", "the failed obligation is a callee precondition at a call site: the counterexample is a state reaching the call, not an input accepted by this function alone"
+		}
+		return e.replayCircuit(l, ob, scratch)
+	}
+	return false, "", "", "no replayer for plain functions yet"
 }
 
 // cmdReplay prints a replay file and, when it carries a generated test, runs it again
